@@ -358,7 +358,7 @@ def sub_cli(case):
     exp = pipeline.process_reference(c, fmt, ref, est)
     if out.exit_code != 0:
         # refusals: no pairs after association, degenerate alignment, or no pose pair realises the delta
-        return "refused"
+        return "refused/%s" % str(out.refused).split(":")[0][:40]
     if exp == "refused":
         raise Mismatch("evo_rpe produced a result although the documented processing chain leaves no pose pairs", observed="missing_refusal")
     arch = cli.read_archive(out_zip)
@@ -459,7 +459,7 @@ def sub_cli(case):
     for k, v in st_ref.items():
         if not abs(float(arch["stats"][k]) - v) <= 1e-9 * max(abs(v), abs(float(arch["stats"][k]))) + 1e-300 + (1e-9 * abs(st_ref["mean"]) if k == "std" else 0):
             raise Mismatch("stats.json %s = %r, values give %r" % (k, arch["stats"][k], v), observed="stats")
-    return "cli/%s/%s/%s" % (fmt, unit, "all" if o["all_pairs"] else "cons")
+    return "cli/%s/%s/%s%s" % (fmt, unit, "all" if o["all_pairs"] else "cons", "/tol>1" if float(o["delta_tol"]) > 1 and o["all_pairs"] and unit != "f" else "")
 
 
 def _expected_pairs_general(o, P, Rs):
@@ -599,7 +599,8 @@ def _mk_rpe_cli(base, relation, unit, dsel, all_pairs, from_ref, tol):
     rel = pipeline.REL_CLI.get(relation, relation)
     if o.get("change_unit"):
         if rel in ("translation_part", "point_distance"):
-            pass
+            if o["change_unit"] not in pipeline.UNIT_FACT:
+                o["change_unit"] = "cm"   # the base case's unit belonged to an angle relation
         elif rel == "rotation_angle_rad":
             o["change_unit"] = "deg"
         elif rel == "rotation_angle_deg":
@@ -616,8 +617,12 @@ def _mk_rpe_cli(base, relation, unit, dsel, all_pairs, from_ref, tol):
 
 
 from vf.checks.c01 import st_cli as _st_ape_cli
-st_cli = st.builds(_mk_rpe_cli, _st_ape_cli(),
-                   st.sampled_from(sorted(pipeline.REL_CLI) + ["point_distance_error_ratio"]), st.sampled_from(["f", "f", "r", "d", "m"]),
-                   st.fixed_dictionaries({"frames": st.integers(1, 4), "m": st.sampled_from([0.05, 1.0, 30.0]), "r": st.sampled_from([0.05, 0.3, 1.0])}),
-                   st.booleans(), st.booleans(), st.sampled_from([0.1, 0.5, 0.1, 0.0]))
+def make_st_cli(unit=None, all_pairs=None, tol=None, plain=False):
+    return st.builds(_mk_rpe_cli, _st_ape_cli(plain=plain),
+                     st.sampled_from(sorted(pipeline.REL_CLI) + ["point_distance_error_ratio"]), unit or st.sampled_from(["f", "f", "r", "d", "m"]),
+                     st.fixed_dictionaries({"frames": st.integers(1, 4), "m": st.sampled_from([0.05, 1.0, 30.0]), "r": st.sampled_from([0.05, 0.3, 1.0])}),
+                     all_pairs or st.booleans(), st.booleans(), tol or st.sampled_from([0.1, 0.5, 0.1, 0.0, 1.5, 3.0]))
+
+
+st_cli = make_st_cli()
 SUBS.append(Sub("cli", sub_cli, st_cli, 800, 30000, nontrivial=lambda c: True, shards_quick=8))
